@@ -12,7 +12,6 @@ import (
 
 	"pgregory.net/rapid"
 
-
 	"verif/gen"
 	"verif/hist"
 	"verif/run"
@@ -174,10 +173,9 @@ func trunc(s string) string {
 	return s
 }
 
+// usesAllOf: some TYPE of the spec uses allOf (a root that inherits from plain types is no matter
+// of the recorded finding)
 func usesAllOf(sp *hist.Spec) bool {
-	if strings.Contains(sp.Schema.Schema, "allOf") {
-		return true
-	}
 	for _, t := range sp.Schema.Types {
 		if strings.Contains(t.Text, "allOf") {
 			return true
@@ -194,7 +192,7 @@ func TestConcurrentSharing(t *testing.T) {
 			Procs: rapid.SampledFrom([]int{2, 4, 16}).Draw(t, "procs")}
 		n := rapid.IntRange(1, 3).Draw(t, "specs")
 		for i := 0; i < n; i++ {
-			sp := hist.DrawSchemaSpec(t, fmt.Sprint("s", i), rapid.SampledFrom([]int{0, 1, 2, 0, 1, 2, 4, 5}).Draw(t, "family"))
+			sp := hist.DrawSchemaSpec(t, fmt.Sprint("s", i), rapid.SampledFrom([]int{0, 1, 2, 0, 1, 2, 4, 5, 6, 6}).Draw(t, "family"))
 			if c.ShareTypes && usesAllOf(sp) && os.Getenv("VERIF_C12_NOAVOID") == "" {
 				// recorded finding C12-shared-type-with-allOf: compiling a root rewrites the nodes of
 				// every added type in place; plans avoid sharing type objects that use allOf
